@@ -45,6 +45,17 @@ func Oracle(sc pairsim.Scenario, tr pairsim.Trace) *evid.Failure {
 			}
 		}
 	}
+	// The responder's block-wise buffers are created with the configured transfer timeout and are not
+	// prolonged: that long (plus two housekeeping periods) after the wire has gone quiet they are gone -
+	// by the timeout the connection was configured with, whichever constructor built it.
+	if tr.MidRead && sc.MidMs > 0 && len(sc.Link.FaultsAB) == 0 && len(sc.Link.FaultsBA) == 0 {
+		if n := tr.MidSrv.BlockwiseReceiving; n != 0 {
+			return evid.Failf("state/server-at-its-timeout/bw-receiving", sc, "responder connection (role %q, block-wise timeout %d ms, housekeeping every %d ms): %d ms after the wire went quiet it still holds %d block-wise reassembly buffers; results: %s", sc.Srv.Role, max(sc.Srv.BwTimeoutMs, 0), sc.TickMs, sc.MidMs, n, results(sc, tr))
+		}
+		if n := tr.MidSrv.BlockwiseSending; n != 0 {
+			return evid.Failf("state/server-at-its-timeout/bw-sending", sc, "responder connection (role %q, block-wise timeout %d ms, housekeeping every %d ms): %d ms after the wire went quiet it still holds %d block-wise send buffers; results: %s", sc.Srv.Role, max(sc.Srv.BwTimeoutMs, 0), sc.TickMs, sc.MidMs, n, results(sc, tr))
+		}
+	}
 	if !tr.SizesRead {
 		return nil // a connection was closed by the scenario or by an error: nothing to read
 	}
@@ -123,6 +134,9 @@ func gen(t *rapid.T) pairsim.Scenario {
 		sc.Cli.MaxMsg, sc.Srv.MaxMsg = 70000, 70000
 	} else {
 		sc.Link = memnet.LinkCfg{LatencyMs: rapid.SampledFrom([]int{1, 5, 60}).Draw(t, "lat"), FaultsAB: genFaults(t, "ab"), FaultsBA: genFaults(t, "ba"), Budget: 800}
+		if rapid.IntRange(0, 2).Draw(t, "faultfree") == 0 {
+			sc.Link.FaultsAB, sc.Link.FaultsBA = nil, nil // (the read-outs before the final one need a link without late copies)
+		}
 	}
 	n := rapid.IntRange(1, 12).Draw(t, "nops")
 	var observes []int
@@ -185,6 +199,16 @@ func gen(t *rapid.T) pairsim.Scenario {
 			}
 		}
 		sc.Ops = append(sc.Ops, op)
+	}
+	// read-out at the responder's configured block-wise timeout (when that differs from the default)
+	if sc.Srv.BwTimeoutMs != 3000 && len(observes) == 0 {
+		hasObs := false // (or a handler that answers late: its send buffer is created long after the wire went quiet)
+		for _, op := range sc.Ops {
+			hasObs = hasObs || op.Kind == "observe" || op.SlowMs > 0
+		}
+		if mid := max(sc.Srv.BwTimeoutMs, 0) + 2*sc.TickMs + 100; !hasObs && mid < 2800 {
+			sc.MidMs = mid
+		}
 	}
 	return sc
 }
